@@ -202,7 +202,12 @@ def s5(ctx, rep, clause="S5"):
         if not ss:
             raise AnchorError(f"_update_running_trials: scheduler.{meth} not found")
         for n2, c in ss:
-            rep.put(ctx.has_fact(f, n2, pred), clause, "guarded_by", f"Tuner._update_running_trials: scheduler.{meth} | {what}" +
+            held = ctx.has_fact(f, n2, pred)
+            if not held and meth == "on_trial_error":
+                # one notification shared by the failed and the externally-stopped case: every alternative of its guard names a status
+                alts = _error_guard_alternatives(ctx, f, n2)
+                held = len(alts) > 1 and all(any(pred(a) for a in alt) for alt in alts)
+            rep.put(held, clause, "guarded_by", f"Tuner._update_running_trials: scheduler.{meth} | {what}" +
                     (f" [{_status_of(ctx, f, n2)}]" if meth == "on_trial_error" else ""), f, c, "")
     # the failure notifications depend on the status alone (no further guard may swallow a failure)
     for n2, c in ctx.calls_in(f, method="on_trial_error", recv="TrialScheduler"):
@@ -212,6 +217,18 @@ def s5(ctx, rep, clause="S5"):
         allowed = [a for a in at if (a[0] == "eq" and a[3] is True and ("Status.failed" in (a[1], a[2]) or "Status.stopped" in (a[1], a[2])))
                    or (a[0] == "in" and a[3] is False and "trials_scheduler_stopped" in a[2] and st_ == "stopped")]
         extra = [a for a in at if a not in allowed]
+        if extra and any(a[0] == "or" for a in extra):
+            # a shared notification: each alternative of the guard consists of a status test (and, for 'stopped', of 'not stopped by
+            # the scheduler'); nothing else
+            extra = []
+            for alt in _error_guard_alternatives(ctx, f, n2):
+                alt = drop_implied(alt)
+                stopped = any(a[0] == "eq" and a[3] is True and "Status.stopped" in (a[1], a[2]) for a in alt)
+                ok_ = [a for a in alt if (a[0] == "eq" and a[3] is True and ("Status.failed" in (a[1], a[2]) or "Status.stopped" in (a[1], a[2])))
+                       or (a[0] == "in" and a[3] is False and "trials_scheduler_stopped" in a[2] and stopped)]
+                if not any(a[0] == "eq" for a in ok_):
+                    extra.append(("no status test in", tuple(sorted(map(str, alt)))))
+                extra += [a for a in alt if a not in ok_]
         rep.put(not extra, clause, "guarded_by", f"Tuner._update_running_trials: on_trial_error [{st_}] depends on the status only", f, c,
                 str(sorted(map(str, at))), f"the failure notification is additionally guarded by {sorted(map(str, extra))}: a failure that "
                 "coincides with that condition (e.g. a stop/pause decision for the same trial in the same poll) is swallowed - "
@@ -375,6 +392,31 @@ def _dom_atoms(cfg, nid):
     for (_, c, t) in dominating_edges(cfg, nid):
         out |= atoms_of(c, t)
     return out
+
+
+def _error_guard_alternatives(ctx, f, nid):
+    """the guard of a failure notification as a list of alternatives (sets of atoms): one alternative for a plain conjunction, several
+    when the notification is shared by `failed or stopped-externally` (local flags expanded through their one definition)"""
+    from ..core.facts import atoms_of as _ao
+    cfg = cfg_of(f)
+    base = set(_dom_atoms(cfg, nid))
+
+    def expand(atoms):
+        out = set()
+        for a in atoms:
+            if a[0] == "truth" and a[1].isidentifier():
+                ds = [d for d in local_defs(f, a[1]) if not isinstance(d, tuple)]
+                if len(ds) == 1:
+                    out |= set(_ao(ds[0], a[2]))
+                    continue
+            out.add(a)
+        return out
+    base = expand(base)
+    ors = [a for a in base if a[0] == "or"]
+    rest = {a for a in base if a[0] != "or"}
+    if len(ors) != 1:
+        return [rest | set(ors)]
+    return [rest | expand(set(alt)) for alt in ors[0][1]]
 
 
 def _status_of(ctx, f, nid):
